@@ -7,11 +7,16 @@ git -C /repo worktree add -q --detach "$T/repo" HEAD || exit 2
 git -C "$T/repo" apply "$patch" || { echo "patch does not apply"; git -C /repo worktree remove --force "$T/repo"; exit 2; }
 cp /repo/Cargo.lock "$T/repo/Cargo.lock" 2>/dev/null
 export VERIF_REPO="$T/repo" VERIF_WORK="$T/work" VERIF_OUT="$T/out"
-ROOT=${VERIF_SNAP:-/verif}
+# run from a private copy of the framework (so that edits to /verif while the trial runs do not disturb it)
+if [ -z "$VERIF_SNAP" ]; then
+  VERIF_SNAP="$T/snap"; mkdir -p "$VERIF_SNAP"
+  rsync -a --exclude work --exclude .git --exclude seeded --exclude evidence --exclude replays /verif/ "$VERIF_SNAP/"
+fi
+ROOT=$VERIF_SNAP
 cd $ROOT
 for p in "$@"; do
   python3 $ROOT/harness/check.py "$p" 2>/dev/null | grep -E "VIOLATION|KNOWN|: ok|: FAIL" | sed "s/^/[$name] /"
 done > "$T/result.txt"
 cat "$T/result.txt"
 git -C /repo worktree remove --force "$T/repo"
-rm -rf "$T/work"
+rm -rf "$T/work" "$T/snap"
